@@ -5,7 +5,7 @@ From Coq Require Extraction.
 From Coq Require Import ExtrOcamlBasic.
 From TV Require Import Prelude.Str Prelude.PosixPath Prelude.Utf8 Prelude.UnicodeTables
   Codec.Quote Codec.DateFmt Codec.TrashInfo Logic.OrigLoc Logic.Glob Logic.PyInt Logic.Indexes Logic.Scope Logic.Reply Logic.Calendar Prog.Prog Cmd.Put Cmd.Scan Cmd.Empty Cmd.Rm Cmd.ListCmd Cmd.Restore
-  Proofs.ProgProofs Proofs.PathProofs Proofs.EmptyProofs Proofs.OrderProofs Proofs.DecisionProofs Proofs.RestoreProofs Proofs.PutSafe Proofs.PutProofs Proofs.PutMore.
+  Proofs.ProgProofs Proofs.PathProofs Proofs.EmptyProofs Proofs.OrderProofs Proofs.DecisionProofs Proofs.RestoreProofs Proofs.PutSafe Proofs.PutProofs Proofs.PutMore World.World.
 Extraction "../driver/model.ml"
   str_eqb split_on dec_of_Z
   basename dirname join2 normpath abspath
@@ -19,4 +19,5 @@ Extraction "../driver/model.ml"
   run_oracle put_main is_mutator should_skipped_by_specs path_of_backup_copy create_trashinfo_basename
   home_trash_dir_path_from_env shrink_user
   list_main empty_main rm_main restore_main is_trashinfo_name sort_files
-  accepts consent_step order_step refuse_step sel_step sel_final decision_step env_now put_step put_init collision_step valid_res valid_name is_info_path skip_step.
+  accepts consent_step order_step refuse_step sel_step sel_final decision_step env_now put_step put_init collision_step valid_res valid_name is_info_path skip_step
+  wapply wprobe upd.
